@@ -167,7 +167,7 @@ def run_case(ctx, h, nedits, lines=None, reals=None):
             elif k < .22:
                 counter[0] += 1
                 live = {o_.name for k_ in classes for o_ in k_.eOperations}
-                kw = rng.choice(['class', 'from', 'import', 'pass'])
+                kw = rng.choice(['class', 'from', 'import', 'pass', 'match', 'case', 'type'])     # (soft keywords are plain names)
                 oname = kw if (rng.random() < .3 and kw not in live) else f'op{counter[0]}'
                 op = E.EOperation(oname); c.eOperations.append(op); log.append(f'{c.name}.addop {op.name}')
                 mname = oname + '_' if keyword.iskeyword(oname) else oname
